@@ -216,6 +216,14 @@ func (a *authority) handleADSStreamFailure(serverConfig *ServerConfig, err error
 		return
 	}
 
+	// Only a failure of the active server may move us to a lower-priority server
+	// (a higher-priority server that is still down while we are in fallback, or a
+	// stale report from a channel that was already released, must not).
+	if a.activeXDSChannel == nil || !isServerConfigEqual(serverConfig, a.activeXDSChannel.serverConfig) {
+		a.propagateConnectivityErrorToAllWatchers(err)
+		return
+	}
+
 	// Attempt to fallback to servers with lower priority than the failing one.
 	currentServerIdx := a.serverIndexForConfig(serverConfig)
 	for i := currentServerIdx + 1; i < len(a.xdsChannelConfigs); i++ {
